@@ -642,3 +642,62 @@ impl Modeled for Marker {
 		1
 	}
 }
+
+/// `repr(transparent)` with SEVERAL fields of which only some carry a wire attribute (the other is
+/// a zero-sized marker): the derive must not take the in-place `decode_into` shortcut.
+#[derive(Encode, Decode, DecodeWithMemTracking, PartialEq, Debug, Clone)]
+#[repr(transparent)]
+pub struct TransTagged(#[codec(compact)] pub u32, pub core::marker::PhantomData<u8>);
+impl Modeled for TransTagged {
+	fn ty(d: usize) -> String {
+		"adt struct 2 c u32 p unit".into()
+	}
+	fn val(&self, out: &mut String, c: bool) {
+		write!(out, "L 2 n{} U", self.0).unwrap();
+	}
+	fn gen(g: &mut G) -> Self {
+		TransTagged(u32::gen(g), core::marker::PhantomData)
+	}
+	fn min_len() -> usize {
+		1
+	}
+}
+#[derive(Encode, Decode, DecodeWithMemTracking, PartialEq, Debug, Clone)]
+#[repr(transparent)]
+pub struct TransTaggedAs {
+	pub marker: (),
+	#[codec(encoded_as = "<u64 as parity_scale_codec::HasCompact>::Type")]
+	pub value: u64,
+}
+impl Modeled for TransTaggedAs {
+	fn ty(d: usize) -> String {
+		"adt struct 2 p unit a c 8 u64".into()
+	}
+	fn val(&self, out: &mut String, c: bool) {
+		write!(out, "L 2 U n{}", self.value).unwrap();
+	}
+	fn gen(g: &mut G) -> Self {
+		TransTaggedAs { marker: (), value: u64::gen(g) }
+	}
+	fn min_len() -> usize {
+		1
+	}
+}
+/// The non-zero-sized field is the skipped one: nothing on the wire, default on decode.
+#[derive(Encode, Decode, DecodeWithMemTracking, PartialEq, Debug, Clone)]
+#[repr(transparent)]
+pub struct TransSkipPayload(#[codec(skip)] pub u32, pub core::marker::PhantomData<u8>);
+impl Modeled for TransSkipPayload {
+	fn ty(d: usize) -> String {
+		"adt struct 2 s u32 p unit".into()
+	}
+	fn val(&self, out: &mut String, c: bool) {
+		out.push_str("L 1 U");
+	}
+	fn gen(g: &mut G) -> Self {
+		TransSkipPayload(0, core::marker::PhantomData)
+	}
+	fn min_len() -> usize {
+		0
+	}
+}
